@@ -182,5 +182,25 @@ let () =
          | Some Panic ->
            if cls = "panic" then Printf.printf "OK %s\n" id else Printf.printf "MISMATCH %s count %s model=panic\n" id nm
          | Some _ -> Printf.printf "MISMATCH %s count %s model=err/fuel\n" id nm)
+      | ["Q"; id; cfg; hex; dcls; pcls; niv; nsub; lb] ->
+        (* both phases of senc: decode class, ParseReadBox class, len(IVs), len(SubSamples), allocation bucket *)
+        let bs = bytes_of_hex hex in
+        let len = L.length bs in
+        let iv = n_of_int (int_of_string (S.sub cfg 1 (S.length cfg - 1))) in
+        let lb = int_of_string lb in
+        (match senc_box (cfg.[0] = 'S') bs iv with
+         | None -> Printf.printf "MISMATCH %s senc not a senc box\n" id
+         | Some (Ok (((((dok, pok), a), b), al), it)) ->
+           let al = int_of_n al in
+           let hi = if lb >= 62 then max_int else 1 lsl lb in
+           let lo = if lb = 0 then 0 else 1 lsl (lb - 1) in
+           let ok =
+             if not dok then dcls = "err"
+             else dcls = "ok" && pcls = (if pok then "ok" else "err")
+                  && ((not pok) || (int_of_string niv = int_of_n a && int_of_string nsub = int_of_n b))
+                  && (al < 131072 || hi >= al / 2) && lo <= 8 * al + 64 * len + 1048576 in
+           if ok then Printf.printf "OK %s\n" id
+           else Printf.printf "MISMATCH %s senc model dec=%b parse=%b ivs=%d subs=%d alloc=%d iters=%d\n" id dok pok (int_of_n a) (int_of_n b) al (int_of_n it)
+         | Some _ -> Printf.printf "MISMATCH %s senc model=panic/fuel\n" id)
       | "FAIL" :: _ | "STATS" :: _ | "EVALS" :: _ -> ()
       | _ -> Printf.printf "BADLINE %s\n" line)
